@@ -313,16 +313,25 @@ def _later_call(pt, case, spec, n_iters):
     pt.reconstruct(**kw)
 
 
-def _save_load(ctx, case, who, src, store, load_device):
+def _save_load(ctx, case, who, src, store, load_device, dataless=False):
     """save(src) -> from_file; checks that save left src as it was and that the loaded object reports
-    what src reported.  Returns the loaded object."""
+    what src reported.  Returns the loaded object.
+
+    dataless=True: the documented route for checkpoints without raw data -- save() with its default
+    save_raw_data=False, then from_file(path, dset=<the dataset, rebuilt and preprocessed by the caller>).
+    Learned scan positions / descan shifts travel in the file; the dataset model's own optimiser, scheduler
+    and constraints do not (the case never has any at that point, or re-states them in the next call)."""
     Q = build.q()
     before = _report(src)
     keys0 = set(vars(src))
     dev0 = src.device
     path = ctx.tmp(".zip" if store == "zip" else "")
-    with ctx.sut(case, "%s: Ptychography.save(save_raw_data=True, store=%r)" % (who, store)):
-        src.save(path, save_raw_data=True, store=store, verbose=0)
+    what = "save_raw_data=False" if dataless else "save_raw_data=True"
+    with ctx.sut(case, "%s: Ptychography.save(%s, store=%r)" % (who, what, store)):
+        if dataless:
+            src.save(path, store=store, verbose=0)
+        else:
+            src.save(path, save_raw_data=True, store=store, verbose=0)
     if not os.path.exists(path):
         _fail(case, "%s: save() returned without creating %s store" % (who, store))
     with ctx.sut(case, "%s: reading the state of the saved object after save()" % who):
@@ -331,15 +340,23 @@ def _save_load(ctx, case, who, src, store, load_device):
     if src.device != dev0:
         _fail(case, "%s: save() changed the device of the saved object from %r to %r" % (who, dev0, src.device))
     keys1 = set(vars(src))
-    if keys1 != keys0:
+    # (a data-less save of an object that was itself loaded from a data-less file drops the loaded
+    # _dataset_metadata again: harmless, not judged)
+    if keys1 - keys0 or (keys0 - keys1) - {"_dataset_metadata"}:
         _fail(case, "%s: save() changed the attribute set of the saved object (added %s, removed %s)" % (who, sorted(keys1 - keys0), sorted(keys0 - keys1)))
-    with ctx.sut(case, "%s: Ptychography.from_file" % who):
-        if load_device:
-            new = Q.Ptychography.from_file(path, device=load_device)
-        else:
-            new = Q.Ptychography.from_file(path)
+    kw = {"device": load_device} if load_device else {}
+    if dataless:
+        fresh = build.build_dataset(case)
+        with ctx.sut(case, "%s: Ptychography.from_file(path, dset=<rebuilt dataset>)" % who):
+            new = Q.Ptychography.from_file(path, dset=fresh, **kw)
+    else:
+        with ctx.sut(case, "%s: Ptychography.from_file" % who):
+            new = Q.Ptychography.from_file(path, **kw)
     with ctx.sut(case, "%s: reading the state of the reloaded object" % who):
         got = _report(new)
+    if dataless:
+        got["constraints"].pop("dataset", None)
+        before = dict(before, constraints={k: v for k, v in before["constraints"].items() if k != "dataset"})
     _cmp_report(case, "%s: reloaded object vs the one that was saved" % who, got, before, exact=True)
     _rm(path)
     return new
@@ -368,6 +385,27 @@ def _rm(path):
         os.remove(path)
 
 
+def _plan(case):
+    """Every model that is optimised in some call -> the parameters it is first given."""
+    plan = {k: v for k, v in case["opt"].items()}
+    for sp in case["later"]:
+        for k, v in (sp.get("opt") or {}).items():
+            plan.setdefault(k, v)
+    return plan
+
+
+def _attached_later(case):
+    """[(call index (1-based, >= 2), key)] for optimisers first attached after the first call."""
+    seen = set(case["opt"])
+    out = []
+    for i, sp in enumerate(case["later"]):
+        for k in sp.get("opt") or {}:
+            if k not in seen:
+                seen.add(k)
+                out.append((i + 2, k))
+    return out
+
+
 def _stateful(opt):
     for v in opt.values():
         t = str(v.get("type", "adam")).lower()
@@ -393,13 +431,26 @@ def _check_resume(ctx, case):
     interior = 0 < k < n
     carried_opt = not later[0].get("opt")
     nontrivial = bool(interior and ((_stateful(case["opt"]) and carried_opt) or (_has_sched(case["sched"]) and carried_opt and not later[0].get("sched"))))
+    plan = _plan(case)
+    attached = _attached_later(case)
+    # an optimiser first attached in a call after an interruption, with iterations still to run
+    if any(sum(segs[ci - 1 :]) > 0 for ci, _k in attached):
+        nontrivial = True
+    lineage = bool(case.get("dataless_first"))
+    # a data-less checkpoint earlier, a with-data checkpoint / clone later, a learned dataset in between
+    if lineage and len(segs) == 3 and min(segs) > 0 and "dataset" in plan:
+        nontrivial = True
     classes = ["resume", "store:" + case["store"], "obj:" + case["obj_type"], "obj_init:" + case["obj_init"], "M%d" % case["M"], "S%d" % case["S"]]
     classes += sorted({"opt:" + str(v.get("type")) + ("+momentum" if v.get("momentum") else "") for v in case["opt"].values()})
     classes += sorted({"sched:" + str(v.get("type")) for v in (case["sched"] or {}).values() if v} or {"sched:none"})
     classes.append("split:first" if k == 0 else "split:last" if k == n else "split:interior")
     classes.append("boundaries:%d" % (len(segs) - 1))
-    if "dataset" in case["opt"]:
+    if "dataset" in plan:
         classes.append("dataset_optimiser")
+    for _ci, kk in attached:
+        classes.append("later_call_attaches_%s_optimiser" % kk)
+    if lineage:
+        classes.append("lineage:dataless_checkpoint_then_full_checkpoint")
     if not case["autograd"]:
         classes.append("analytic_gradients")
     if case["loss_type"] != "l2_amplitude":
@@ -424,8 +475,8 @@ def _check_resume(ctx, case):
             "W": _illumination(A),
             "k0": k,
             "fresh_adam": k == 0 or any(sp.get("opt") for sp in later),
-            "object_adam": str(case["opt"]["object"]["type"]).lower() != "sgd",
-            "probe_adam": "probe" in case["opt"] and str(case["opt"]["probe"]["type"]).lower() != "sgd",
+            "object_adam": str(plan["object"]["type"]).lower() != "sgd",
+            "probe_adam": "probe" in plan and str(plan["probe"]["type"]).lower() != "sgd",
         }
         _first_call(A, case, segs[0])
         refs = [_report(A)]
@@ -461,16 +512,19 @@ def _check_resume(ctx, case):
     except core.Violation as v:
         raise core.HarnessError("two identical uninterrupted runs disagree: %s" % v.msg)
 
-    B = _save_load(ctx, case, "boundary 1", P, case["store"], case.get("load_device"))
+    B = _save_load(ctx, case, "boundary 1", P, case["store"], case.get("load_device"), dataless=lineage)
     C = _clone(ctx, case, "boundary 1", P)
     D = P
+    E = None  # lineage cases: a clone taken at a later boundary from the object that was loaded data-less
     if diverges:
         return
     for i in range(1, len(segs)):
         spec = later[i - 1]
         runs = [("reloaded object", B), ("clone", C), ("original after save()/clone()", D)]
+        if E is not None:
+            runs.insert(1, ("clone of the reloaded object", E))
         if case.get("orig_first"):
-            runs = [runs[2], runs[1], runs[0]]
+            runs = runs[::-1]
         for who, o in runs:
             with ctx.sut(case, "%s: reconstruct() call %d" % (who, i + 1)):
                 _later_call(o, case, spec, segs[i])
@@ -478,9 +532,11 @@ def _check_resume(ctx, case):
             _cmp_report(case, "%s after call %d vs the uninterrupted run" % (who, i + 1), got, refs[i], exact=False, view=view)
         if i + 1 < len(segs):
             store2 = "dir" if case["store"] == "zip" else "zip"
+            if lineage:
+                E = _clone(ctx, case, "boundary %d (object loaded from a data-less checkpoint)" % (i + 1), B)
             B = _save_load(ctx, case, "boundary %d (second-generation)" % (i + 1), B, store2, case.get("load_device"))
             C = _clone(ctx, case, "boundary %d (second-generation)" % (i + 1), C)
-    del A, B, C, D, P
+    del A, B, C, D, E, P
 
 
 # ------------------------------------------------------------------------------------------------
@@ -764,8 +820,8 @@ def _constraints(draw, c):
 
 
 @st.composite
-def _problem(draw):
-    with_ds = draw(st.integers(0, 2)) == 2
+def _problem(draw, force_ds=False):
+    with_ds = force_ds or draw(st.integers(0, 2)) == 2
     # (ProbeParametric is not drawn: its aberration-coefficient gradients are float32 sums with heavy
     # cancellation, 1e-3 relative noise between two summation orders, amplified by Adam: continuation after
     # a reload then agrees only to ~1e-3, a property of that model, not of checkpointing)
@@ -800,23 +856,59 @@ def _family(v):
 
 
 @st.composite
-def resume_cases(draw):
-    c = draw(_problem())
-    n = draw(st.integers(2, 6))
-    nb = 2 if (n >= 3 and _rare(draw, 5)) else 1
+def resume_cases(draw, mode="mixed"):
+    """mode 'mixed': the general generator (an optimiser is attached late in ~1 of 5 cases);
+    'attach': always attaches the dataset (or probe) optimiser in a call after the first interruption;
+    'lineage': three segments, the first interruption is a data-less checkpoint (save_raw_data=False +
+    from_file(dset=...)), the second a with-data checkpoint / clone, and the dataset is learned in between."""
+    lineage = mode == "lineage"
+    c = draw(_problem(force_ds=lineage or (mode == "attach" and draw(st.booleans()))))
+    n = draw(st.integers(3 if lineage else 2, 6))
+    nb = 2 if (lineage or (n >= 3 and _rare(draw, 5))) else 1
     if nb == 1:
         k = draw(st.one_of(st.integers(1, n - 1), st.integers(0, n)))
+        if mode == "attach":
+            k = min(k, n - 1)  # iterations must remain after the attaching call
         segs = [k, n - k]
     else:
         k1 = draw(st.integers(1, n - 2))
         k2 = draw(st.integers(1, n - k1 - 1))
         segs = [k1, k2, n - k1 - k2]
-    keys = list(c["opt"])
-    if segs[0] == 0 and "dataset" in keys and _family(c["opt"]["dataset"]) == "adam":
+    keys = list(c["opt"])  # the full plan: every model that is optimised in some call
+    # ---- which optimisers are only attached in a later call -----------------------------------------
+    movable = [k_ for k_ in ("dataset", "probe") if k_ in keys]
+    attach_at = {}
+    flavour_b = False
+    if lineage:
+        ds = c["opt"]["dataset"]
+        # the scan positions must really move between the two checkpoints
+        if _family(ds) == "adam":
+            ds["lr"] = max(float(ds["lr"]), 1e-2)
+        elif not isinstance(ds["lr"], int):
+            ds["lr"] = max(float(ds["lr"]), 0.1)
+        flavour_b = draw(st.booleans())
+        if flavour_b:
+            # learned before the data-less checkpoint as well: the next call re-states every optimiser (the
+            # dataset model's own optimiser is not part of a data-less file), no dataset scheduler
+            if isinstance(ds["lr"], int):
+                ds["lr"] = 0.1
+        else:
+            attach_at["dataset"] = 1
+    elif movable and (mode == "attach" or _rare(draw, 5)):
+        pick = draw(st.sampled_from(movable + (["both"] if len(movable) == 2 else [])))
+        for k_ in movable if pick == "both" else [pick]:
+            j = draw(st.integers(1, len(segs) - 1))
+            while j > 1 and sum(segs[j:]) == 0:
+                j -= 1
+            attach_at[k_] = j
+    before_attach = sum(segs[: attach_at.get("dataset", 0)])
+    if "dataset" in keys and _family(c["opt"]["dataset"]) == "adam" and before_attach == 0:
         # With a (nearly) uniform object the exit waves do not depend on the scan positions: their gradient
         # is analytically zero at the first iteration, what float32 delivers is rounding noise, and a fresh
-        # Adam turns its sign into a +-lr step.  For k >= 1 that step lies in the bitwise-shared prefix; for
-        # k == 0 it is taken after the reload with another summation order.
+        # Adam turns its sign into a +-lr step.  After >= 1 shared iteration that step lies in the
+        # bitwise-shared prefix; otherwise it is taken after the reload with another summation order.
+        c["obj_init"] = "array"
+    if lineage:
         c["obj_init"] = "array"
     sched = {}
     for key in keys:
@@ -829,8 +921,13 @@ def resume_cases(draw):
                 s = {"type": "exp", "gamma": 0.5}
             if s:
                 sched[key] = _strip(s)
+    if flavour_b:
+        sched.pop("dataset", None)
     c["sched"] = sched
     c["constraints"] = draw(_constraints(c))
+    if lineage:
+        # dataset-model constraints are not part of a data-less file: state them after that checkpoint only
+        c["constraints"].pop("dataset", None)
     later = []
     for i in range(len(segs) - 1):
         sp = {}
@@ -846,8 +943,31 @@ def resume_cases(draw):
             key = draw(st.sampled_from(keys))
             sp["opt"] = {key: draw(_optimizer(key, family=_family(c["opt"][key]), parametric=c["probe_init"] == "parametric"))}
         later.append(sp)
+    # ---- move late optimisers out of the first call -----------------------------------------------
+    plan = copy.deepcopy(c["opt"])
+    for k_, j in attach_at.items():
+        spec = c["opt"].pop(k_)
+        c["sched"].pop(k_, None)
+        sp = later[j - 1]
+        sp.setdefault("opt", {})[k_] = spec
+        if isinstance(spec["lr"], int) and segs[j] > 0:
+            sp.setdefault("sched", {})[k_] = {"type": "exp", "gamma": 0.5}
+    for sp in later:  # a scheduler for a model that has no optimiser yet would wait for it with stale defaults
+        have = set(c["opt"])
+        for sp2 in later[: later.index(sp) + 1]:
+            have |= set(sp2.get("opt") or {})
+        if sp.get("sched"):
+            sp["sched"] = {k_: v for k_, v in sp["sched"].items() if k_ in have}
+            if not sp["sched"]:
+                del sp["sched"]
+    if flavour_b:
+        later[0]["opt"] = copy.deepcopy(plan)
+        if "constraints" not in later[0] and draw(st.booleans()):
+            later[0]["constraints"] = {"dataset": {"descan_shifts_constant": draw(st.booleans())}}
     c["later"] = later
     c["segments"] = segs
+    if lineage:
+        c["dataless_first"] = True
     if c["M"] == 1 and "dataset" not in keys and c["probe_init"] != "parametric" and not c["learn_tilt"] and _rare(draw, 6):
         c["autograd"] = False  # analytic gradients (pixelated single-mode models only)
     elif _rare(draw, 6):
@@ -924,6 +1044,8 @@ def search(ctx):
     shrink = ctx.thorough
     # ~0.8 s per case: quick = 4 workers x 65 cases, thorough = 16 workers x 580 cases
     core.run_given(ctx, "skip", skip_cases(), lambda c: check(ctx, c), ctx.n(10, 80), shrink=shrink)
-    core.run_given(ctx, "resume", resume_cases(), lambda c: check(ctx, c), ctx.n(55, 500), shrink=shrink)
+    core.run_given(ctx, "resume", resume_cases(), lambda c: check(ctx, c), ctx.n(42, 400), shrink=shrink)
+    core.run_given(ctx, "attach", resume_cases("attach"), lambda c: check(ctx, c), ctx.n(8, 60), shrink=shrink)
+    core.run_given(ctx, "lineage", resume_cases("lineage"), lambda c: check(ctx, c), ctx.n(8, 60), shrink=shrink)
     for k, v in STATS.items():
         ctx.extra["max_err_over_tol: " + k] = round(v, 6)
